@@ -42,7 +42,8 @@ func runC09(b *Batch) {
 				c09ConcurrentCollision(b, i)
 			}
 		} else {
-			c09Sequence(b, i)
+			i := i
+			b.Guard(i, "C09", func() { c09Sequence(b, i) })
 			collectGarbage(i)
 		}
 	}
